@@ -429,7 +429,7 @@ func (t *tr) stmt(s ast.Stmt) string {
 			}
 		}
 	case *ast.IfStmt:
-		if s.Init == nil {
+		{
 			els := "SSkip"
 			if s.Else != nil {
 				if b, ok := s.Else.(*ast.BlockStmt); ok {
@@ -438,7 +438,30 @@ func (t *tr) stmt(s ast.Stmt) string {
 					els = t.stmt(s.Else)
 				}
 			}
-			return "(SIf " + t.expr(s.Cond) + " " + t.seq(s.Body.List) + " " + els + ")"
+			ifs := "(SIf " + t.expr(s.Cond) + " " + t.seq(s.Body.List) + " " + els + ")"
+			if s.Init == nil {
+				return ifs
+			}
+			// if init; cond { } : the Go specification defines it as the block { init; if cond { } }
+			return "(SBlock (SSeq " + t.stmt(s.Init) + " " + ifs + "))"
+		}
+	case *ast.DeclStmt:
+		// var x K (one name, basic kind, no initialiser) : x := the zero value of K
+		if gd, ok := s.Decl.(*ast.GenDecl); ok && gd.Tok == token.VAR && len(gd.Specs) == 1 {
+			if vs, ok := gd.Specs[0].(*ast.ValueSpec); ok && len(vs.Names) == 1 && len(vs.Values) == 0 && vs.Type != nil {
+				if id, ok := vs.Type.(*ast.Ident); ok && id.Obj == nil {
+					if k, ok := kinds[id.Name]; ok {
+						zero := "(EConv (TK " + k + ") (ELit 0))"
+						switch k {
+						case "GString":
+							zero = "(EStr S_empty)"
+						case "GBool":
+							zero = "(EVar V_false)"
+						}
+						return "(SDefine " + enum("ident", "V", vs.Names[0].Name) + " " + zero + ")"
+					}
+				}
+			}
 		}
 	case *ast.ForStmt:
 		init, post, cond := "SSkip", "SSkip", "(EVar V_true)"
